@@ -111,8 +111,12 @@ class Summary:
             self.bound_hits.append(r['detail'])
         elif st == 'engine-error':
             self.engine_errors.append(r['detail'])
-        if r.get('sample') is not None and len(self.samples) < 8 and st == 'ok':
+        if r.get('sample') is not None and st == 'ok':
+            # keep the richest few (by description length) so that the evidence shows non-trivial cases
             self.samples.append(r['sample'])
+            if len(self.samples) > 64:
+                self.samples.sort(key=lambda x: -len(str(x)))
+                del self.samples[8:]
         if r.get('tv') is not None:
             self.tv.append(r['tv'])
         if r.get('pc') and len(self.pcs) < 5:
